@@ -33,9 +33,14 @@ class _D(Domain):
 
 def run(program, rep, tier):
     sm = program.cls('StaticResourceMap')
+    class _DX(_D):
+        follow_exceptions = True
+
+        def may_raise(self, st, ev):
+            return ev.kind == 'call'
     for nm in ('__setattr__', '__delattr__'):
         f = program.method('StaticResourceMap', nm, inherited=False)
-        w = Walker(program, _D(program))
+        w = Walker(program, _DX(program))
         exits = w.run(f, sm)
         rep.count('paths', len(exits))
         bad = None
